@@ -204,10 +204,16 @@ class Sched:
 
     def yield_point(self, op='', obj=None, val=None):
         me = self.cur
+        pause = 0.0
         for r in self.rules:
             k = r(self, me, op, obj, val)
-            if k:
+            if isinstance(k, tuple):
+                pause = max(pause, k[1])
+            elif k:
                 me.starve_until = self.steps + k
+        if pause:
+            self.block_until(lambda: False, pause, 'descheduled')
+            return
         self.switch()
 
     def block_until(self, pred, timeout=None, desc=''):
